@@ -1,12 +1,153 @@
 //! C12 — flip, roll, rot90 as exact coordinate maps. Value protocol with tags.
+//!
+//! Every case is executed on the plain `Array<i64>` tag array (the answer compared with the model), on its `u8` and `f64`
+//! (tag 0 = -0.0, bit-wise) images, for a share of the small cases also on `i8`, `bool`, `String`, `f32` (-0.0), every time on BOTH
+//! receivers (`a.op(..)` and `Ok(a).op(..)` through `impl ArrayReorder for Result<Array<T>, ArrayError>`), and the i64 call is
+//! repeated (same call twice).  Any divergence between element types / receivers / repetitions fails the case.
 use arrharness::*;
+use std::cell::RefCell;
+
+// ---------------------------------------------------------------- cross-type / both-receiver plumbing (local copy, lib.rs is shared)
+
+thread_local! { static NOTE: RefCell<Option<String>> = const { RefCell::new(None) }; }
+fn note(s: String) { NOTE.with(|n| { let mut n = n.borrow_mut(); if n.is_none() { *n = Some(s); } }); }
+fn take_note() -> Option<String> { NOTE.with(|n| n.borrow_mut().take()) }
+
+/// tag -> element of every swept type (i64 / u8 / f64 agree with lib.rs `tag_u8`, `tag_f64z`)
+trait Tagged: ArrayElement {
+    const NAME: &'static str;
+    fn of(t: i64) -> Self;
+    fn same(a: &Self, b: &Self) -> bool { a == b }
+}
+impl Tagged for i64 { const NAME: &'static str = "i64"; fn of(t: i64) -> Self { t } }
+impl Tagged for u8 { const NAME: &'static str = "u8"; fn of(t: i64) -> Self { tag_u8(t) } }
+impl Tagged for i8 { const NAME: &'static str = "i8"; fn of(t: i64) -> Self { tag_i8(t) } }
+impl Tagged for bool { const NAME: &'static str = "bool"; fn of(t: i64) -> Self { t % 2 != 0 } }
+impl Tagged for String { const NAME: &'static str = "String"; fn of(t: i64) -> Self { format!("s{t}") } }
+impl Tagged for f64 { const NAME: &'static str = "f64"; fn of(t: i64) -> Self { tag_f64z(t) } fn same(a: &Self, b: &Self) -> bool { a.to_bits() == b.to_bits() } }
+impl Tagged for f32 { const NAME: &'static str = "f32"; fn of(t: i64) -> Self { if t == 0 { -0.0 } else { t as f32 } } fn same(a: &Self, b: &Self) -> bool { a.to_bits() == b.to_bits() } }
+
+fn arr_of<T: Tagged>(s: &str) -> Array<T> { let (sh, e) = parse_arr_raw(s); Array::new(e.into_iter().map(T::of).collect(), sh).expect("harness: array literal") }
+
+fn same_res<T: Tagged>(a: &Result<Array<T>, ArrayError>, b: &Result<Array<T>, ArrayError>) -> bool {
+    match (a, b) {
+        (Ok(a), Ok(b)) => a.get_shape().unwrap() == b.get_shape().unwrap() && { let (x, y) = (a.get_elements().unwrap(), b.get_elements().unwrap()); x.len() == y.len() && x.iter().zip(y.iter()).all(|(p, q)| T::same(p, q)) },
+        (Err(a), Err(b)) => err_name(a) == err_name(b),
+        _ => false,
+    }
+}
+fn brief<T: Tagged>(r: &Result<Array<T>, ArrayError>) -> String { truncate(&res_arr(r), 200) }
+
+/// plain receiver, then the same call on `Ok(array)`, then (i64 only) the plain call again; the plain answer is returned,
+/// a divergence is left in NOTE (and fails the case)
+fn rx<T: Tagged>(plain: impl Fn() -> Result<Array<T>, ArrayError>, chained: impl Fn() -> Result<Array<T>, ArrayError>) -> Result<Array<T>, ArrayError> {
+    let p = plain();
+    if let Ok(a) = &p { if !consistent(a) { note(format!("INCONSISTENT result on {}: {}", T::NAME, brief(&p))); } }
+    match std::panic::catch_unwind(std::panic::AssertUnwindSafe(&chained)) {
+        Ok(c) => if !same_res(&p, &c) { note(format!("RECEIVER-DIVERGENCE ({}) the call on Ok(array) gives `{}`, the plain call `{}`", T::NAME, brief(&c), brief(&p))); },
+        Err(_) => note(format!("RECEIVER-DIVERGENCE ({}) the call on Ok(array) panics, the plain call gives `{}`", T::NAME, brief(&p))),
+    }
+    if T::NAME == "i64" { let p2 = plain(); if !same_res(&p, &p2) { note(format!("REPEAT-DIVERGENCE the same call twice: `{}` then `{}`", brief(&p), brief(&p2))); } }
+    p
+}
+
+fn extra_arr<T: Tagged>(ri: &Result<Array<i64>, ArrayError>, rt: std::thread::Result<Result<Array<T>, ArrayError>>) -> Option<String> {
+    let rt = match rt { Ok(r) => r, Err(_) => return Some(format!("the {} run panics", T::NAME)) };
+    if ri.is_ok() != rt.is_ok() { return Some(format!("element type {} gives a different outcome class ({})", T::NAME, brief(&rt))); }
+    if let (Ok(i), Ok(t)) = (ri, &rt) {
+        let (ei, et) = (i.get_elements().unwrap(), t.get_elements().unwrap());
+        if i.get_shape().unwrap() != t.get_shape().unwrap() || ei.len() != et.len() { return Some(format!("{} result has another shape: {}", T::NAME, brief(&rt))); }
+        for p in 0..ei.len() { if !T::same(&et[p], &T::of(ei[p])) { return Some(format!("{} run differs at flat position {p}: {:?} instead of {:?}", T::NAME, et[p], T::of(ei[p]))); } }
+    }
+    None
+}
+
+macro_rules! at_type { ($T:ident, $ty:ty, $body:expr) => {{ #[allow(dead_code, non_camel_case_types)] type $T = $ty; std::panic::catch_unwind(std::panic::AssertUnwindSafe(|| $body)) }} }
+/// `$body` (an expression in the element type alias `$T`, giving `Result<Array<$T>, ArrayError>`) on i64 / u8 / f64(-0.0) — the
+/// comparison of lib.rs `cross_type_arr`, i.e. what `on_types_arr!` does — and, when `$more`, on i8 / bool / String / f32 too
+macro_rules! sweep_arr { ($more:expr, |$T:ident| $body:expr) => {{
+    let _ = take_note();
+    let mut obs = match (at_type!($T, i64, $body), at_type!($T, u8, $body), at_type!($T, f64, $body)) {
+        (Ok(ri), Ok(ru), Ok(rf)) => {
+            let mut d = cross_type_arr(&ri, &ru, &rf);
+            if d.is_none() && $more {
+                d = extra_arr::<i8>(&ri, at_type!($T, i8, $body));
+                if d.is_none() { d = extra_arr::<bool>(&ri, at_type!($T, bool, $body)); }
+                if d.is_none() { d = extra_arr::<String>(&ri, at_type!($T, String, $body)); }
+                if d.is_none() { d = extra_arr::<f32>(&ri, at_type!($T, f32, $body)); }
+            }
+            match d { None => res_arr(&ri), Some(d) => format!("TYPE-DIVERGENCE {d}; i64 run: {}", truncate(&res_arr(&ri), 300)) }
+        }
+        (Err(_), Err(_), Err(_)) => "panic".to_string(),
+        (ri, ru, rf) => format!("TYPE-DIVERGENCE panic only for some element types (i64 {}, u8 {}, f64 {})", ri.is_err(), ru.is_err(), rf.is_err()),
+    };
+    if let Some(n) = take_note() { obs = format!("{n}; answer: {}", truncate(&obs, 300)); }
+    obs
+}} }
+
+// ---------------------------------------------------------------- generator
 
 fn spell(ax: usize, nd: usize, neg: bool) -> isize { if neg { ax as isize - nd as isize } else { ax as isize } }
+
+/// shapes of the size stream: lib `big_shapes()` + matrices with both axes >= 8 (square, off by one, far from square, around the
+/// 256 / 1024 / 4096 element marks) + the same lengths at rank 3 / 4 in every position + unit axes next to long ones
+fn c12_big_shapes(thorough: bool) -> Vec<Vec<usize>> {
+    let mut v = big_shapes();
+    let more: Vec<Vec<usize>> = vec![
+        vec![8, 8], vec![8, 9], vec![9, 8], vec![7, 8], vec![8, 7], vec![7, 9], vec![10, 13], vec![13, 10], vec![8, 16], vec![16, 8], vec![8, 17], vec![17, 8],
+        vec![15, 16], vec![16, 15], vec![16, 16], vec![24, 9], vec![9, 24], vec![33, 8], vec![8, 33], vec![100, 9], vec![9, 100], vec![32, 32], vec![31, 33],
+        vec![64, 64], vec![63, 65], vec![64, 65], vec![65, 64], vec![128, 33], vec![1, 300], vec![300, 1], vec![2, 2050], vec![2050, 2],
+        vec![8, 9, 2], vec![2, 8, 9], vec![8, 2, 9], vec![9, 8, 10], vec![16, 17, 3], vec![3, 16, 17], vec![17, 3, 16], vec![8, 9, 1], vec![1, 8, 9], vec![8, 1, 9],
+        vec![8, 8, 8, 8], vec![2, 9, 8, 2], vec![1, 9, 1, 8], vec![16, 17, 16], vec![2, 2, 2, 2, 2, 2, 2, 2, 2]];
+    for s in more { if !v.contains(&s) { v.push(s); } }
+    if thorough { for a in 7..=17usize { for b in 7..=17usize { let s = vec![a, b]; if !v.contains(&s) { v.push(s); } } }
+        for s in [vec![70, 71], vec![71, 70], vec![9, 10, 11, 5], vec![4, 33, 32], vec![12, 12, 12, 3], vec![5000, 1], vec![1, 5000], vec![3, 1400]] { if !v.contains(&s) { v.push(s); } } }
+    v
+}
+
+/// array text with MANY zero tags (so the f64 image holds -0.0 in many places, the u8 image 0, bool false): every third tag kept
+fn zeros_arr(s: &[usize]) -> String {
+    let n: usize = s.iter().product();
+    format!("{}:{}", show_list(s), show_list(&(0..n as i64).map(|i| if (i * 7 + 1) % 3 == 0 { i } else { 0 }).collect::<Vec<_>>()))
+}
+
+fn axis_pairs(nd: usize, heavy: bool) -> Vec<(usize, usize)> {
+    let mut v = vec![];
+    if nd < 2 { return vec![(0, 0)]; }
+    if heavy { v.push((0, nd - 1)); v.push((nd - 1, 0)); if nd > 2 { v.push((1, 2)); v.push((nd - 1, 1)); } return v; }
+    for i in 0..nd { for j in 0..nd { if i != j || i == 0 { v.push((i, j)); } } }
+    v
+}
+
+fn gen_robust(a: &str, s: &[usize], heavy: bool, rng: &mut Rng, out: &mut dyn FnMut(String)) {
+    let nd = s.len(); let n: usize = s.iter().product(); let ni = n as isize;
+    out(format!("flip {a} none")); out(format!("flipud {a}")); out(format!("fliplr {a}"));
+    for i in 0..nd { out(format!("flip {a} {}", spell(i, nd, i % 2 == 1))); }
+    if nd >= 2 { out(format!("flip {a} {},{}", spell(nd - 1, nd, true), 0)); out(format!("flip {a} {}", show_list(&(0..nd as isize).collect::<Vec<_>>()))); out(format!("flip {a} 0,{}", -(nd as isize))); }
+    for sh in [0, 1, -1, ni / 2, ni - 1, ni, ni + 1, -(ni + 3), 7, 1_000_003] { out(format!("roll {a} {sh} none")); }
+    for i in 0..nd { let d = s[i] as isize;
+        for (q, sh) in [1, -1, d - 1, d, d + 1, d / 2, -3 * d - 1, 7].into_iter().enumerate() { out(format!("roll {a} {sh} {}", spell(i, nd, q % 2 == 1))); } }
+    if nd >= 2 {
+        out(format!("roll {a} {},{} 0,{}", rng.range(-20, 20), rng.range(-20, 20), spell(nd - 1, nd, true)));
+        out(format!("roll {a} {},{} {},{}", rng.range(-20, 20), rng.range(-20, 20), spell(1, nd, false), spell(1, nd, true)));
+        out(format!("roll {a} {} {},0", rng.range(-20, 20), spell(nd - 1, nd, false)));
+        out(format!("roll {a} 3,-5,9 {},{},{}", spell(0, nd, true), spell(nd - 1, nd, false), spell(0, nd, false)));
+    }
+    out(format!("roll {a} 2,3 none")); out(format!("roll {a} 1 {nd}")); out(format!("flip {a} {}", -(nd as isize) - 1));
+    // rot90: every k = 0..7 for the ordered axis pairs (all of them below ~2000 elements, four of them above), both spellings
+    let ks: Vec<usize> = if heavy { vec![1, 2, 3] } else { (0..8).collect() };
+    for (q, (i, j)) in axis_pairs(nd, heavy).into_iter().enumerate() { for &k in &ks {
+        out(format!("rot90 {a} {k} {},{}", spell(i, nd, (q + k) % 3 == 1), spell(j, nd, (q + k) % 2 == 1)));
+    } }
+    out(format!("rot90 {a} 1 0")); out(format!("rot90 {a} 1 0,{nd}")); out(format!("rot90 {a} 3 0,1,0"));
+}
 
 fn gen(tier: &str, seed: u64, out: &mut dyn FnMut(String)) {
     let thorough = tier == "thorough";
     let mut rng = Rng::new(seed);
-    for l in ["flip i1,3,3 1", "flip i2,3,4 1", "roll i3 7 none", "roll i2,3,2 1 1", "roll i3 -7 0"] { out(l.to_string()); }
+    for l in ["flip i1,3,3 1", "flip i2,3,4 1", "roll i3 7 none", "roll i2,3,2 1 1", "roll i3 -7 0",
+              // round-2 corpus: one axis under two spellings; -0.0 through an odd quarter turn; non-square matrices with both axes >= 8
+              "roll i3 5 0,-1", "roll i2,5 1,2 1,-1", "rot90 2,3:0,1,0,2,0,3 1 0,1", "rot90 i8,9 1 0,1", "rot90 i9,8 1 0,1", "rot90 i10,13 3 1,0", "rot90 i13,10 1 -2,-1"] { out(l.to_string()); }
     let mut all = shapes(1, 4, 1, 3);
     all.extend(vec![vec![4], vec![2, 4], vec![5, 2], vec![2, 2, 4], vec![1, 4, 2, 2]]);
     for s in &all {
@@ -49,17 +190,45 @@ fn gen(tier: &str, seed: u64, out: &mut dyn FnMut(String)) {
             _ => out(format!("rot90 {a} {} {},{}", rng.below(8), spell(i, nd, rng.below(2) == 0), spell(j, nd, rng.below(2) == 0))),
         }
     }
+    // ---- robustness streams (FRAMEWORK.md)
+    // 1. sizes: axis lengths 7..17 in every position, matrices with both axes >= 8, element counts beyond 256 / 1024 / 4096
+    for s in c12_big_shapes(thorough) { let n: usize = s.iter().product(); gen_robust(&tag(&s), &s, n >= 2000, &mut rng, out); }
+    // 2. zero-length axes
+    let mut zs = zero_shapes(); zs.extend([vec![3, 0, 2], vec![1, 0, 1], vec![0, 3, 1], vec![2, 2, 0, 2]]);
+    for s in &zs { gen_robust(&tag(s), s, false, &mut rng, out); }
+    // 3. value classes for the f64 / f32 / u8 / bool images: arrays holding the zero tag (-0.0, 0u8, false) in many positions
+    let mut vs = shapes(1, 3, 1, 3); vs.extend([vec![4, 2], vec![8, 9], vec![9, 8], vec![10, 13], vec![2, 3, 4], vec![8, 8], vec![7, 1, 9]]);
+    for s in &vs { gen_robust(&zeros_arr(s), s, false, &mut rng, out); }
+    // 4./5. both receivers, the repeated call and the element types are applied by `exec` to EVERY case above
+    // seeded random shapes with axis lengths up to 17 (thorough: up to 40), rank 2..4, at most ~3000 elements
+    for _ in 0..(if thorough { 1200 } else { 120 }) {
+        let nd = 2 + rng.below(3); let hi = if thorough && rng.below(4) == 0 { 40 } else { 17 };
+        let mut s: Vec<usize> = (0..nd).map(|_| 1 + rng.below(hi)).collect();
+        while s.iter().product::<usize>() > 3000 { let p = rng.below(nd); s[p] = 1 + s[p] / 2; }
+        let a = tag(&s); let (i, j) = (rng.below(nd), rng.below(nd));
+        match rng.below(4) {
+            0 => out(format!("flip {a} {},{}", spell(i, nd, rng.below(2) == 0), spell(j, nd, rng.below(2) == 0))),
+            1 => out(format!("roll {a} {},{} {},{}", rng.range(-50, 50), rng.range(-50, 50), spell(i, nd, rng.below(2) == 0), spell(j, nd, rng.below(2) == 0))),
+            _ => out(format!("rot90 {a} {} {},{}", rng.below(8), spell(i, nd, rng.below(2) == 0), spell(j, nd, rng.below(2) == 0))),
+        }
+    }
 }
 
+// ---------------------------------------------------------------- executor
+
 fn exec(op: &str, args: &[&str], expected: &str) -> Option<Verdict> {
-    let a = parse_arr_i64(args[0]);
+    let src = *args.first()?;
     let optl = |s: &str| -> Option<Vec<isize>> { if s == "none" { None } else { Some(parse_isize_list(s)) } };
+    // the four further element types: arrays of at most 600 elements, one case line in three
+    let more = { let (sh, _) = parse_arr_raw(src); sh.iter().product::<usize>() <= 600 && args.iter().map(|a| a.len()).sum::<usize>() % 3 == 0 };
     let obs = match op {
-        "flip" => { let ax = optl(args[1]); guarded(|| res_arr(&a.flip(ax.clone()))) }
-        "flipud" => guarded(|| res_arr(&a.flipud())),
-        "fliplr" => guarded(|| res_arr(&a.fliplr())),
-        "roll" => { let sh = parse_isize_list(args[1]); let ax = optl(args[2]); guarded(|| res_arr(&a.roll(sh.clone(), ax.clone()))) }
-        "rot90" => { let k: usize = args[1].parse().ok()?; let ax = parse_isize_list(args[2]); guarded(|| res_arr(&a.rot90(k, ax.clone()))) }
+        "flip" => { let ax = optl(args[1]); sweep_arr!(more, |T| { let a = arr_of::<T>(src); rx(|| a.flip(ax.clone()), || Ok(a.clone()).flip(ax.clone())) }) }
+        "flipud" => sweep_arr!(more, |T| { let a = arr_of::<T>(src); rx(|| a.flipud(), || Ok(a.clone()).flipud()) }),
+        "fliplr" => sweep_arr!(more, |T| { let a = arr_of::<T>(src); rx(|| a.fliplr(), || Ok(a.clone()).fliplr()) }),
+        "roll" => { let sh = parse_isize_list(args[1]); let ax = optl(args[2]);
+            sweep_arr!(more, |T| { let a = arr_of::<T>(src); rx(|| a.roll(sh.clone(), ax.clone()), || Ok(a.clone()).roll(sh.clone(), ax.clone())) }) }
+        "rot90" => { let k: usize = args[1].parse().ok()?; let ax = parse_isize_list(args[2]);
+            sweep_arr!(more, |T| { let a = arr_of::<T>(src); rx(|| a.rot90(k, ax.clone()), || Ok(a.clone()).rot90(k, ax.clone())) }) }
         _ => return None,
     };
     Some(compare_default(obs, expected))
@@ -69,5 +238,5 @@ fn nontrivial(_op: &str, args: &[&str]) -> bool { parse_arr_raw(args[0]).0.iter(
 
 fn main() {
     harness_main(Spec { prop: "C12", gen, exec, nontrivial, hang_secs: 20,
-        rule: "every shape rank<=4 len<=3 (+ lengths 4-5): flip none / every axis +- / every ordered pair / triples; flipud, fliplr; roll along the flat order for shifts in [-3n,3n] (+ far beyond), along every axis +- for every shift in [-3d,3d] (+ far beyond), 2-element axis/shift lists incl. repeated axes and one shift for two axes; rot90 k=0..7 x every ordered axis pair in several spellings (incl. equal axes); out-of-range axes and malformed lists; seeded random rank 5 len<=4. Tag arrays: shape and every element compared. non-trivial = >=2 axes longer than 1" });
+        rule: "every shape rank<=4 len<=3 (+ lengths 4-5): flip none / every axis +- / every ordered pair / triples; flipud, fliplr; roll along the flat order for shifts in [-3n,3n] (+ far beyond), along every axis +- for every shift in [-3d,3d] (+ far beyond), 2-element axis/shift lists incl. repeated axes and one shift for two axes; rot90 k=0..7 x every ordered axis pair in several spellings (incl. equal axes); out-of-range axes and malformed lists; seeded random rank 5 len<=4. Robustness streams: sizes (lib big_shapes + matrices with both axes >= 8: square, off by one, far from square, around 256/1024/4096 elements, up to [70,70]/[128,33]/[8,8,8,8]; the same lengths at rank 3-4 in every position; unit axes next to long ones; rank 9; thorough: every [a,b] with 7<=a,b<=17): flip none/every axis/lists, flipud/fliplr, roll flat and per axis for shifts around 0, d/2, d, beyond, lists with one axis under two spellings, rot90 k=0..7 x every ordered axis pair (>= 2000 elements: k=1,2,3 x four pairs), malformed; zero-length shapes (lib zero_shapes + [3,0,2],[1,0,1],[0,3,1],[2,2,0,2]) through every op; arrays holding the zero tag in most positions (f64/f32 image -0.0, compared bit-wise); seeded random rank 2-4 with axis lengths <= 17 (thorough <= 40). EVERY case runs on Array<i64> (the compared answer), on the u8 and f64 (tag 0 = -0.0, bit-wise) images, one small case in three also on i8 / bool / String / f32, each on the plain receiver AND on Ok(array) through the Result-receiver impl, and the i64 call twice; any divergence fails the case. Tag arrays: shape and every element compared. non-trivial = >=2 axes longer than 1" });
 }
